@@ -619,7 +619,7 @@ def sweep(tier):
                             fdes = []
                             for j, op in enumerate(single):
                                 op = list(op)
-                                ops = [['advance_loc', 1], op, ['advance_loc', 2], ['def_cfa_offset', 24], ['advance_loc', 1]]
+                                ops = [['advance_loc', 1], op, ['advance_loc', 2], ['def_cfa', 7, 24] if op[0] == 'def_cfa_expression' else ['def_cfa_offset', 24], ['advance_loc', 1]]
                                 if op[0] == 'set_loc':
                                     op[1] = base_loc + j * 0x100 + 0x40
                                 if op[0] == 'remember_state':
